@@ -197,6 +197,9 @@ func WorkerMain(t *testing.T) {
 			res.Run = run
 			out.Runs++
 			out.Steps += int64(res.Steps)
+			if res.Steps > out.MaxRunSteps {
+				out.MaxRunSteps = res.Steps
+			}
 			out.SimNs += float64(res.SimNs)
 			out.Events += int64(res.Events)
 			for k, v := range res.Faults {
